@@ -295,11 +295,10 @@ class Textgrid:
                 f"EraseRegion error: start time ({start}) must occur before end time ({end})"
             )
 
-        diff = end - start
-
         maxTimestamp = self.maxTimestamp
         if doShrink is True:
-            maxTimestamp -= diff
+            # The expression the tiers use for their own new end
+            maxTimestamp = start + (maxTimestamp - end)
 
         newTG = Textgrid(self.minTimestamp, self.maxTimestamp)
         for tier in self.tiers:
